@@ -297,6 +297,10 @@ class _Money(float):
     """a user-defined subclass of float: not one of the two documented weight types (int, float)"""
 
 
+class _NotRejectedButUnsolved(Exception):
+    pass
+
+
 def construct_special(inst):
     """build (G, kwargs) honouring the cases JSON cannot express directly"""
     sp = inst["spec"]; special = inst.get("_special")
@@ -372,8 +376,8 @@ def gen_cases(tier, seed):
             cases.append({"kind": "invalid", "cls": cls, "kinds": rng.sample(KINDS[:-1], 2), "rs": f"C19p:{seed}:{cls}:{i}"})
         for i in range(per * 7):
             cases.append({"kind": "converse", "cls": cls, "rs": f"C19c:{seed}:{cls}:{i}"})
-    for i in range(per * 6):
-        cases.append({"kind": "aux", "rs": f"C19a:{seed}:{i}", "which": i % 17})
+    for i in range(max(per * 6, 34)):
+        cases.append({"kind": "aux", "rs": f"C19a:{seed}:{i}", "which": i % 34})
     for cls in ("kFlowDecomp", "MinFlowDecomp", "MinFlowDecompCycles"):
         for i in range(per * 3):
             cases.append({"kind": "history", "cls": cls, "rs": f"C19h:{seed}:{cls}:{i}"})
@@ -560,6 +564,24 @@ def run_case(case):
                 viol.append({"sig": f"C19/in-domain-input-raises/{cls}/{out['exc']}/all-zero-flow", "msg": f"{out['exc']}: {out.get('msg')}"})
         return {"viol": viol, "obs": dict(obs), "nontrivial": True, "keys": ["corpus"], "sample": {"corpus": True}}
     # auxiliary classes
+    def _multi():
+        H = nx.MultiDiGraph(); H.add_edge("s", "a", flow=3); H.add_edge("a", "t", flow=2); H.add_edge("a", "t", flow=1)
+        for v in H.nodes:
+            H.nodes[v]["flow"] = 3
+        return H
+    def _wrap(npt, x, y, z):
+        import numpy as np
+        t = getattr(np, npt); H = nx.DiGraph(); H.add_edge("a", "v", flow=t(x)); H.add_edge("b", "v", flow=t(y)); H.add_edge("v", "t", flow=t(z)); return H
+    def _cyc():
+        H = nx.DiGraph()
+        for u, v, f in (("a", "b", 3), ("b", "c", 9), ("c", "a", 3), ("c", "d", 6)):
+            H.add_edge(u, v, flow=f)
+        return H
+    def _solve(m):
+        m.solve()
+        if m.is_solved():
+            return m          # (built, solved: not rejected)
+        raise ValueError("not solved (never claims a solution)") if False else _NotRejectedButUnsolved()
     which = case["which"]; rng = gen.rng_for(case["rs"])
     G = nx.DiGraph(); G.add_edge("a", "b", flow=2); G.add_edge("b", "c", flow=2)
     tests = [
@@ -578,13 +600,35 @@ def run_case(case):
         ("MinErrorFlow/nan-weight/acyclic", lambda: fp.MinErrorFlow(_intg([("a", "b"), ("b", "c")], w=float("nan")), flow_attr="flow", solver_options=dict(SO))),
         ("MinErrorFlow/inf-weight/cyclic", lambda: fp.MinErrorFlow(_intg([("a", "b"), ("b", "a"), ("b", "c")], w=float("inf")), flow_attr="flow", solver_options=dict(SO))),
         ("stDAG/unknown-start", lambda: fp.stDAG(G, additional_starts=["zz"])),
+        # (a MultiDiGraph is an instance of DiGraph: its parallel edges cannot be represented)
+        ("stDAG/multigraph", lambda: fp.stDAG(_multi())),
+        ("stDiGraph/multigraph", lambda: fp.stDiGraph(_multi())),
+        ("kLeastAbsErrors/multigraph", lambda: _solve(fp.kLeastAbsErrors(_multi(), flow_attr="flow", k=2, solver_options=dict(SO)))),
+        ("kMinPathErrorCycles/multigraph", lambda: _solve(fp.kMinPathErrorCycles(_multi(), flow_attr="flow", k=2, solver_options=dict(SO)))),
+        ("MinPathCover/multigraph/node", lambda: _solve(fp.MinPathCover(_multi(), cover_type="node", solver_options=dict(SO)))),
+        ("MinErrorFlow/multigraph", lambda: _solve(fp.MinErrorFlow(_multi(), flow_attr="flow", solver_options=dict(SO)))),
+        # (numpy integers of a small width: 200 + 100 == 44 as uint8; the flow is NOT conserved at v)
+        ("kFlowDecomp/non-conserving-uint8-wraparound", lambda: _solve(fp.kFlowDecomp(_wrap("uint8", 200, 100, 44), flow_attr="flow", k=2, weight_type=int, solver_options=dict(SO)))),
+        ("MinFlowDecomp/non-conserving-uint16-wraparound", lambda: _solve(fp.MinFlowDecomp(_wrap("uint16", 40000, 30000, 4464), flow_attr="flow", weight_type=int, solver_options=dict(SO)))),
+        ("MinFlowDecompCycles/non-conserving-uint8-wraparound", lambda: _solve(fp.MinFlowDecompCycles(_wrap("uint8", 200, 100, 44), flow_attr="flow", weight_type=int, solver_options=dict(SO)))),
+        ("kLeastAbsErrors/superset-inf", lambda: fp.kLeastAbsErrors(G, flow_attr="flow", k=1, weight_type=float, solution_weights_superset=[2.0, float("inf")], solver_options=dict(SO))),
+        ("kFlowDecomp/superset-inf/int", lambda: fp.kFlowDecomp(G, flow_attr="flow", k=1, weight_type=int, solution_weights_superset=[2, float("inf")], solver_options=dict(SO))),
+        ("kMinPathError/length-factor-negative", lambda: fp.kMinPathError(G, flow_attr="flow", k=1, weight_type=int, path_length_ranges=[[0, 20]], path_length_factors=[-1.0], solver_options=dict(SO))),
+        ("kMinPathError/length-factor-nan", lambda: fp.kMinPathError(G, flow_attr="flow", k=1, weight_type=int, path_length_ranges=[[0, 20]], path_length_factors=[float("nan")], solver_options=dict(SO))),
+        ("kMinPathError/length-range-not-a-pair", lambda: fp.kMinPathError(G, flow_attr="flow", k=1, weight_type=int, path_length_ranges=[(0,)], path_length_factors=[1.0], solver_options=dict(SO))),
+        ("kMinPathError/length-range-inf", lambda: fp.kMinPathError(G, flow_attr="flow", k=1, weight_type=int, path_length_ranges=[[0, float("inf")]], path_length_factors=[1.0], solver_options=dict(SO))),
+        ("MinErrorFlow/cyclic/unknown-start", lambda: _solve(fp.MinErrorFlow(_cyc(), flow_attr="flow", additional_starts=["zz"], solver_options=dict(SO)))),
+        ("MinErrorFlow/cyclic/end-is-not-a-node-name", lambda: _solve(fp.MinErrorFlow(_cyc(), flow_attr="flow", additional_ends=[None], solver_options=dict(SO)))),
         ("stDiGraph/no-source", lambda: fp.stDiGraph(nx.DiGraph([("a", "b"), ("b", "a")]))),
         ("SolverWrapper/unknown-solver", lambda: __import__("flowpaths.utils.solverwrapper", fromlist=["x"]).SolverWrapper(external_solver="cplex")),
     ]
     name, fn = tests[which % len(tests)]
     r = M.safe_call(fn)
     obs["c19.invalid_inputs_judged"] += 1
-    if r[0] == "ok":
+    if r[0] != "ok" and r[1] == "_NotRejectedButUnsolved":
+        # built without error and then merely 'not solved': the invalid input was not rejected, but no solution is claimed either
+        viol.append({"sig": f"C19/not-rejected/{name}/unsolved", "msg": "constructed and solve() run without ValueError (model not solved)"})
+    elif r[0] == "ok":
         viol.append({"sig": f"C19/not-rejected/{name}", "msg": "constructed without error"})
     elif r[1] != "ValueError":
         viol.append({"sig": f"C19/wrong-exception/{name}/{r[1]}", "msg": f"{r[1]}: {r[2]}"})
